@@ -535,4 +535,67 @@ m('c02-twin-mask-if', 'C02', 'neutral', FEC, PM + '.run', "if not block.client_m
 m('c02-twin-rename-old', 'C02', 'neutral', FEC, 'for_each_client_backend', "old = _BACKEND_CHOICE.backend",
   "old = _BACKEND_CHOICE.backend\nprevious = old")
 
+# ---------------------------------------------------------------- C11
+UQ = 'uniform_stochastic_quantizer.apply'
+RQ = 'rotated_uniform_stochastic_quantizer.apply'
+DQ = 'structured_drive_quantizer.apply'
+TQ = 'terngrad_quantizer.apply'
+m('c11-drive-unguarded', 'C11', 'break', COMP, 'drive_pytree',
+  "new_leaves.append(util.safe_div(jnp.sum(jnp.power(leaf, 2)) * jnp.sign(leaf), jnp.sum(jnp.abs(leaf))))",
+  "new_leaves.append(jnp.sum(jnp.power(leaf, 2)) * jnp.sign(leaf) / jnp.sum(jnp.abs(leaf)))", expect='R-DIV')
+m('c11-binary-no-nan-to-num', 'C11', 'break', COMP, 'binary_stochastic_quantize',
+  "v = jnp.nan_to_num((v - v_min) / (v_max - v_min))", "v = (v - v_min) / (v_max - v_min)", expect='R-DIV')
+m('c11-uniform-threshold-nan', 'C11', 'break', COMP, 'uniform_stochastic_quantize',
+  "threshold = jnp.nan_to_num((v - v_floor) / (v_ceil - v_floor))", "threshold = (v - v_floor) / (v_ceil - v_floor)",
+  expect='R-DIV')
+m('c11-no-clamp', 'C11', 'break', COMP, 'binary_stochastic_quantize', "v = jnp.maximum(0.0, jnp.minimum(v, 1.0))", "pass",
+  expect='R-CLAMP')
+m('c11-uniform-no-clamp', 'C11', 'break', COMP, 'uniform_stochastic_quantize', "v = jnp.maximum(0.0, jnp.minimum(v, 1.0))",
+  "pass", expect='R-CLAMP')
+m('c11-same-key-per-leaf', 'C11', 'break', COMP, 'uniform_stochastic_quantize_pytree',
+  "new_leaves.append(uniform_stochastic_quantize(l, num_levels, r))", "new_leaves.append(uniform_stochastic_quantize(l, num_levels, rng))",
+  expect='R-KEY')
+m('c11-tern-same-key-per-leaf', 'C11', 'break', COMP, 'terngrad_quantize_pytree', "new_leaves.append(terngrad_quantize(l, r))",
+  "new_leaves.append(terngrad_quantize(l, rngs[0]))", expect='R-KEY')
+m('c11-same-key-per-client', 'C11', 'break', COMP, TQ, "clients_params_and_weight_rng = zip(clients_params_and_weights, rng_seq)",
+  "clients_params_and_weight_rng = zip(clients_params_and_weights, itertools.repeat(use_rng))", expect='R-KEY')
+m('c11-closure-key-per-client', 'C11', 'break', COMP, UQ + '.quantize_params_and_weight',
+  "return (uniform_stochastic_quantize_pytree(params, num_levels, rng), weight)",
+  "return (uniform_stochastic_quantize_pytree(params, num_levels, use_rng), weight)", expect='R-') if False else None
+m('c11-seq-from-state-key', 'C11', 'break', COMP, UQ, "rng_seq = hk.PRNGSequence(use_rng)",
+  "rng_seq = hk.PRNGSequence(aggregator_state.rng)", expect='R-KEY')
+m('c11-rotation-key-mismatch', 'C11', 'break', COMP, DQ + '.quantize_params_and_weight',
+  "return (walsh_hadamard.inverse_structured_rotation_pytree(drive_pytree(rotated_param), client_rng, shapes), weight)",
+  "return (walsh_hadamard.inverse_structured_rotation_pytree(drive_pytree(rotated_param), rotation_rng, shapes), weight)",
+  expect='R-')
+m('c11-no-inverse-rotation', 'C11', 'break', COMP, DQ + '.quantize_params_and_weight',
+  "return (walsh_hadamard.inverse_structured_rotation_pytree(drive_pytree(rotated_param), client_rng, shapes), weight)",
+  "return (drive_pytree(rotated_param), weight)", expect='R-PAIR.rotation')
+m('c11-weight-squared', 'C11', 'break', COMP, TQ + '.quantize_params_and_weight',
+  "return (terngrad_quantize_pytree(params, rng), weight)", "return (terngrad_quantize_pytree(params, rng), 1.0)",
+  expect='R-PAIR.weight')
+m('c11-bits-reset', 'C11', 'break', COMP, TQ, "new_state = CompressionState(aggregator_state.num_bits + new_bits, rng)",
+  "new_state = CompressionState(new_bits, rng)", expect='R-PAIR.bits')
+m('c11-bits-16', 'C11', 'break', COMP, RQ, "new_bits = math.log2(num_levels) * total_num_params + 32 * total_num_floats",
+  "new_bits = math.log2(num_levels) * total_num_params + 16 * total_num_floats", expect='R-PAIR.bits-formula')
+m('c11-bits-levels', 'C11', 'break', COMP, RQ, "new_bits = math.log2(num_levels) * total_num_params + 32 * total_num_floats",
+  "new_bits = num_levels * total_num_params + 32 * total_num_floats", expect='R-PAIR.bits-formula')
+m('c11-bits-floats-one-per-leaf', 'C11', 'break', COMP, DQ, "total_num_floats = 2 * num_leaves(aggregated_params)",
+  "total_num_floats = num_leaves(aggregated_params)", expect='R-PAIR.bits-formula')
+m('c11-mean-skips-first', 'C11', 'break', COMP, TQ, "aggregated_params = tree_util.tree_mean(quantized_p_and_w)",
+  "aggregated_params = tree_util.tree_mean(itertools.islice(quantized_p_and_w, 1, None))", expect='R-WMEAN')
+m('c11-tern-const-mismatch', 'C11', 'break', COMP, 'terngrad_quantize',
+  "v = jnp.where(jnp.abs(v) > 2.5 * sigma, 2.5 * sigma * jnp.sign(v), v)",
+  "v = jnp.where(jnp.abs(v) > 2.5 * sigma, 2.0 * sigma * jnp.sign(v), v)", expect='R-PAIR.terngrad')
+m('c11-tern-no-sign', 'C11', 'break', COMP, 'terngrad_quantize',
+  "return binary_stochastic_quantize(jnp.abs(v), rng, 0.0, jnp.amax(jnp.abs(v))) * jnp.sign(v)",
+  "return binary_stochastic_quantize(jnp.abs(v), rng, 0.0, jnp.amax(jnp.abs(v)))", expect='R-PAIR.terngrad')
+m('c11-twin-safe-div', 'C11', 'neutral', COMP, 'binary_stochastic_quantize',
+  "v = jnp.nan_to_num((v - v_min) / (v_max - v_min))", "v = util.safe_div(v - v_min, v_max - v_min)")
+m('c11-twin-clip', 'C11', 'neutral', COMP, 'binary_stochastic_quantize', "v = jnp.maximum(0.0, jnp.minimum(v, 1.0))",
+  "v = jnp.clip(v, 0.0, 1.0)")
+m('c11-twin-split3', 'C11', 'neutral', COMP, RQ, "rng, use_rng = jax.random.split(rng)", "rng, use_rng = jax.random.split(rng, 2)")
+m('c11-twin-bits-order', 'C11', 'neutral', COMP, TQ, "new_bits = math.log2(3) * total_num_params + 32 * total_num_floats",
+  "new_bits = 32 * total_num_floats + total_num_params * math.log2(3)")
+
 _E[:] = [e for e in _E if e is not None]
